@@ -33,7 +33,8 @@ def encodeKey (node : Bytes) (pn : Nat) (sk : Bytes) : Bytes := be32 node.length
 /-- `decode_from_rocksdb_bytes`; `none` = the slice indexing of the real code panics -/
 def decodeKey : Bytes → Option (Bytes × Nat × Bytes)
   | a :: b :: c :: d :: rest =>
-    let len := a * 16777216 + b * 65536 + c * 256 + d
+    -- literals first: `Nat.mul` recurses on its second argument, so `a * 16777216` would make `whnf` unfold 2^24 times
+    let len := 16777216 * a + 65536 * b + 256 * c + d
     match rest.drop len with
     | pn :: sk => if len ≤ rest.length then some (rest.take len, pn, sk) else none
     | [] => none
